@@ -127,7 +127,7 @@ pub fn extend(o: &mut Outcome, quick: bool, seed: u64) {
         Ok(())
     });
     o.absorb(part);
-    let cases = if quick { 6_000 } else { 200_000 };
+    let cases = if quick { 30_000 } else { 200_000 };
     let part = pt_run("c20_quant_twin", quant_case, cases, seed, 201, 4000, |c, st| quant_twin(c, st));
     o.absorb(part);
     let part = pt_run(
